@@ -6,7 +6,7 @@ PID = "C15"
 PROPS = ["Props/C15.v"]
 GEN = ["Api.v"]
 MODEL_IS_SPEC = False
-RULE = ("valid queries (filter-free and with filters), invalid queries (one per error class: syntax, type, index, name) and JSON values; each pair goes through the 11 public entry points "
+RULE = ("valid queries (filter-free and with filters), invalid queries (one per error class: syntax, type, index, name) and JSON values, including documents that are strings holding JSON text; each pair goes through the 11 public entry points "
         "(module find/finditer/find_one/compile, environment find/finditer/find_one/compile, compiled find/apply/finditer/find_one); the results are compared pairwise "
         "(find == list(finditer), find_one == first or None, same error class everywhere) and the list result with the model; each valid pair also runs a random HISTORY of 2-5 calls on one compiled query (find_one, abandoned iterators, two interleaved iterators, another value) whose every result must equal a fresh call; non-trivial = result non-empty or an error; "
         "distinct = distinct (text, value)")
@@ -48,7 +48,11 @@ def cases(ctx, budget):
         r = rng.random()
         names = gen.SIMPLE_NAMES
         v = gen.rand_json(rng, depth=rng.randint(0, 3), fan=4, names=names, top=rng.random() < 0.8)
-        if r < 0.15:
+        if i % 25 == 7:
+            # a document that is a JSON string whose text is itself JSON: it is data, never decoded, on every entry point
+            v = rng.choice(["1", "true", "null", "[1, 2]", '{"a": 1}', '"x"', "0", "[]", '{"a": {"b": [1]}}', " 1 ", "1e2"])
+            text = rng.choice(["$", "$[0]", "$.a", "$..*", "$[*]", "$[?@ == 1]", "$.a.b[0]", "$[-1]", "$[0:1]"])
+        elif r < 0.15:
             text = rng.choice(INVALID)
         elif r < 0.3:
             text = harness.mutate_text(rng, gen.render_query(rng, gen.rand_query(rng, names=names, depth=2)))
@@ -88,7 +92,7 @@ def cases(ctx, budget):
                 elif op == "find2": got, want = run(lambda: c.find(v2)), fresh2
                 else:
                     def two():
-                        a, b = c.finditer(v), c.finditer(v2); out = []
+                        a, b = iter(c.finditer(v)), iter(c.finditer(v2)); out = []      # finditer returns an Iterable (a list for "$")
                         for _ in range(3):
                             out.append(next(a, None)); next(b, None)
                         return [nd for nd in out if nd is not None] + list(a)
